@@ -1,6 +1,7 @@
 """C02 — observable behaviour is independent of JIT and optimisation configuration (DESIGN.md C02)."""
 import itertools
 import json
+import re
 
 from checks import common, lang, c01
 
@@ -106,6 +107,169 @@ def module_cases(ck, g, n):
     return out
 
 
+SWEEP_FNS = """
+(define (a1 x) (unbox x))
+(define (a2 x) (set-box! x 1))
+(define (a3 x) (sub1 x))
+(define (a4 x) (add1 x))
+(define (a5 x) (vector-ref x 0))
+(define (a6 x) (list-ref x 0))
+(define (a7 x) (not x))
+(define (a8 x y) (< x y))
+(define (a9 x) (zero? x))
+(define (b1 x) (- x))
+(define (b2 x) (* x 2))
+(define (b3 x) (cons 1 x))
+(define (b4 x) (cdr x))
+(define (b5 x) (cadr x))
+(define (b6 x) (vector-set! x 5 0))
+(define (b7 x) (hash-ref x 1))
+(define (b8 x) (string-length x))
+(define (b9 x) (equal? x 1))
+(define (c1 x) (length x))
+(define (c2 x) (first x))
+(define (c3 x y) (<= x y))
+(define (c4 x y) (> x y))
+(define (c5 x y) (>= x y))
+(define (c6 x y) (= x y))
+(define (c7 x) (< x 3))
+(define (c8 x) (<= x 3))
+(define (c9 x) (= x 3))
+(define (d1 x) (/ 1 x))
+(define (d2 x y) (/ x y))
+(define (d3 x y) (* x y))
+(define (d4 x y) (- x y))
+(define (d5 x y) (+ x y))
+(define (d6 x) (- x 1))
+(define (d7 x) (+ x 1))
+(define (d8 x) (car x))
+(define (d9 x) (if (< x 3) 1 2))
+(define (e1 x) (if (= x 3) 1 2))
+(define (e2 x) (if (<= x 3) 1 2))
+(define (e3 x) (let loop ((i 0) (acc 0)) (if (< i x) (loop (+ i 1) (+ acc i)) acc)))
+(define (e4 x) (if (null? x) 0 (+ 1 (e4 (cdr x)))))
+(define (e5 x y) (+ x y 1))
+(define (e6 x y) (- x y 1))
+(define (e7 x y) (* x y 2))
+(define (e8 x) (> x 3))
+(define (e9 x) (>= x 3))
+(define (f1 x) (with-handler (lambda (e) 'caught) (< x 3)))
+(define (f2 x) (with-handler (lambda (e) 'caught) (- x 1)))
+(define (f3 x) (with-handler (lambda (e) 'caught) (/ 1 x)))
+(define (f4 x) (list #f (if x x (+ 1 1))))
+(define (f5 x y) (list y (if (car x) (car x) (cdr x))))
+(define (f6 x) (+ 1 (if (null? x) 0 (car x))))
+(define (f7 x y) (let ((v (vector-ref x y))) (list v (vector-ref x 0))))
+(define (f8 x) (let ((b (box x))) (set-box! b (car x)) (unbox b)))
+"""
+SWEEP_VALS = ['"a"', "5", "0", "'()", "'(1 2)", "(vector 1)", "(box 3)", "2.5", "1/2", "#f", "'sym",
+              "9223372036854775807", "-9223372036854775808", "18446744073709551616", "(list #f 2)"]
+
+
+def jit_sweep(ck):
+    """Native tier against the interpreter on single operations with operands of every kind (mostly of the WRONG
+    type): the functions live in a required module, where primitives compile to opcodes and, with the JIT on, to the
+    native helpers of jit.rs; every call is made twice on a fresh engine.  Outcome (value or error / success) must
+    not depend on STEEL_JIT."""
+    import os
+    fns = re.findall(r"\(define \((\w+)((?: \w)*)\)", SWEEP_FNS)
+    d = os.path.join(ck.work, "mods")
+    os.makedirs(d, exist_ok=True)
+    path = os.path.join(d, "sweep.scm")
+    with open(path, "w") as fh:
+        fh.write(SWEEP_FNS + "(provide " + " ".join(f for f, _ in fns) + ")\n")
+    calls = []
+    for f, ps in fns:
+        n = len(ps.split())
+        for v in SWEEP_VALS:
+            if n == 1:
+                calls.append("(%s %s)" % (f, v))
+            else:
+                calls.append("(%s %s 1)" % (f, v))
+                calls.append("(%s 1 %s)" % (f, v))
+                calls.append("(%s %s 0)" % (f, v))
+    if ck.tier == "quick":
+        calls = ck.rng.sample(calls, 320)
+    cases = [['(require "%s")' % path, c, c] for c in calls]
+    on = ck.eval_cases(cases, fresh=True, env={}, batch=20, timeout_per_batch=120)
+    off = ck.eval_cases(cases, fresh=True, env={"STEEL_JIT": "false"}, batch=20, timeout_per_batch=120)
+
+    def outcome(r):
+        out = []
+        for x in r[1:]:
+            if "ok" in x:
+                out.append("OK " + " ".join(x["ok"]))
+            elif "err" in x:
+                out.append("ERR")
+            elif "out" in x:
+                out.append("OUT " + x["out"])
+            else:
+                out.append("CRASH " + json.dumps(x)[:80])
+        return out
+    bad = 0
+    kinds = set()
+    for c, a, b in zip(calls, on, off):
+        ck.cov["evaluations"] += 1
+        oa, ob = outcome(a), outcome(b)
+        kinds.add((c.split()[0], ob[0][:3] if ob else "?"))
+        if oa != ob:
+            bad += 1
+            if bad <= 5:
+                ck.failing_input("native tier and interpreter differ on %s" % c,
+                                 {"history": ['(require "<module>")', c, c], "module_file": SWEEP_FNS, "call": c,
+                                  "jit_on": oa, "jit_off": ob, "config": {}}, tag="jit")
+    ck.cov["jit_sweep"] = {"calls": len(calls), "functions": len(fns), "operand_kinds": len(SWEEP_VALS),
+                           "distinct_function_outcome_pairs": len(kinds), "differing": bad}
+    return kinds
+
+
+def proc_global_histories(ck, n):
+    """A global whose value is a procedure that the inliner cannot see through (a built-in, or a closure returned by
+    a call) is called from functions compiled in earlier units - in tail and non-tail position, in loops, from inner
+    lambdas - and then assigned: every later call must use the new procedure (cf. the quantifier: 'later pieces
+    redefine or assign globals that earlier compiled functions call')."""
+    r = ck.rng
+    I, V, A = lang.I, lang.V, lang.A
+    prims = ["+", "*", "max", "min", "-"]
+    out = []
+    for k in range(n):
+        gp, mk, c = "gp%d" % k, "mkp%d" % k, "cl%d" % k
+
+        def value():
+            t = r.random()
+            if t < 0.55:
+                return V(r.choice(prims))
+            if t < 0.8:
+                return A(mk, I(r.randint(1, 9)))
+            return ("lam", ["x", "y"], None, [A(r.choice(["+", "-"]), A("*", V("x"), I(r.randint(2, 5))), V("y"))])
+        init = V(r.choice(prims)) if r.random() < 0.7 else A(mk, I(r.randint(1, 9)))
+        shape = r.choice(["nontail", "tail", "loop", "inner", "branch", "nested"])
+        if shape == "nontail":
+            body = A("list", A(gp, V("a"), V("b")), A(gp, V("b"), V("a")))
+        elif shape == "tail":
+            body = A(gp, V("a"), V("b"))
+        elif shape == "loop":
+            body = ("nlet", "loop", [("i", I(0)), ("acc", I(0))],
+                    [("if", A("<", V("i"), I(3)), A("loop", A("+", V("i"), I(1)), A("+", V("acc"), A(gp, V("a"), V("i")))), V("acc"))])
+        elif shape == "inner":
+            body = A("map", ("lam", ["x"], None, [A(gp, V("x"), V("b"))]), A("list", V("a"), V("b")))
+        elif shape == "branch":
+            body = A("+", I(1), ("if", A("<", V("a"), V("b")), A(gp, V("a"), V("b")), A(gp, V("b"), V("a"))))
+        else:
+            body = A(gp, A(gp, V("a"), V("b")), A(gp, V("b"), I(2)))
+        defs = [("define", mk, ("lam", ["k"], None, [("lam", ["x", "y"], None, [A("+", V("x"), V("y"), V("k"))])])),
+                ("define", gp, init),
+                ("define", c, ("lam", ["a", "b"], None, [body]))]
+
+        def call():
+            return A(c, I(r.randint(-5, 9)), I(r.randint(-5, 9)))
+        units = [defs + [call()], [call(), call()],
+                 [("begin", [("set", gp, value()), I(0)]), call()],
+                 [call(), ("begin", [("set", gp, value()), I(0)]), call(), call()]]
+        out.append(units)
+    return out
+
+
 def run(ck):
     ck.cov["trusted_base"] = [
         "Coq 8.16.1 kernel, coqc; vm_compute for model evaluation",
@@ -119,7 +283,9 @@ def run(ck):
     ck.harness_build(["evalsrv"])
     g = lang.Gen(ck.rng)
     nh, np_ = (16, 24) if ck.tier == "quick" else (300, 500)
-    items = [[p] for p in lang.CORPUS] + [g.history() for _ in range(nh)] + [[g.program()] for _ in range(np_)]
+    pgh = proc_global_histories(ck, 12 if ck.tier == "quick" else 200)
+    ck.cov["procedure_global_histories"] = len(pgh)
+    items = [[p] for p in lang.CORPUS] + pgh + [g.history() for _ in range(nh)] + [[g.program()] for _ in range(np_)]
     configs = all_configs()
     if ck.tier == "quick":
         base = [configs[0], {"STEEL_JIT": "false"}, configs[-1] if False else
@@ -170,6 +336,8 @@ def run(ck):
                 ck.failing_input("configuration %s: a program with its definitions in a required module differs from the reference" % name,
                                  case, tag="mod")
     ck.cov["module_programs"] = len(mods)
+    # ---- native tier vs interpreter on single operations, operands of every kind
+    jit_sweep(ck)
     for h, m in list(zip(items, model))[:3]:
         ck.sample({"history": [lang.unit_to_steel(u) for u in h][:3], "reference": m[:300]})
     ck.cov["distinct_nontrivial"] = len(nontrivial)
